@@ -825,9 +825,15 @@ func opHandlerBind(env *LEnv, args *LVal) *LVal {
 				// even if a Go panic propagates through the handler.
 				env.Runtime.PushCondition(val)
 				defer env.Runtime.PopCondition()
-				expr := []*LVal{hval, Quote(Symbol(val.Str))}
-				expr = append(expr, val.Copy().Cells...)
-				return env.Eval(SExpr(expr))
+				// The handler is CALLED with the condition name and the error's
+				// data.  The data are values already: building a call
+				// expression out of them and evaluating it evaluated every
+				// datum a second time, so a symbol taken from a quoted list was
+				// looked up (unbound symbol) and a list datum such as (+ 1 2)
+				// reached the handler as 3.
+				hargs := []*LVal{Quote(Symbol(val.Str))}
+				hargs = append(hargs, val.Copy().Cells...)
+				return env.funCall(env.evalCtx, hval, SExpr(hargs))
 			}
 			return val
 		}
